@@ -46,6 +46,12 @@ func init() {
 		// with no undefined key allowed
 		g.c04AfterCallFailure(sched, "ExistingNode.CanAdd", "tryVolumeAlternative", "volumeAlternativeFailure")
 		g.c04CallArgs(sched, "Scheduler.isDaemonPodCompatibleWithNode", "Compatible", "daemonNodeCompatibleArgs")
+		// every provider id of a MarkForDeletion call is handled; attach limits count the union; custom requirement keys
+		// become NodeClaim labels
+		g.c04Returns(state, "Cluster.MarkForDeletion", "markForDeletionReturns")
+		g.c04Returns(state, "Cluster.UnmarkForDeletion", "unmarkForDeletionReturns")
+		g.callSeq(c04Group, "pkg/scheduling", "VolumeUsage.ExceedsLimits", "exceedsLimitsCalls", []string{"Union"})
+		g.c04IfConds(sched, "NodeClaimTemplate.resolveCustomLabelsFromRequirements", "resolveCustomLabelsConds")
 		// the StateNode views
 		for _, fn := range []string{"Taints", "Labels", "Allocatable", "Capacity", "Registered", "Initialized", "Managed", "MarkedForDeletion", "Deleted", "HostName", "Name"} {
 			g.c04IfConds(state, "StateNode."+fn, "stateNode"+fn+"Conds")
